@@ -55,6 +55,9 @@ func (t *c19Origin) RoundTrip(req *http.Request) (*http.Response, error) {
 // c19CacheSeq runs one sequence of GET round trips on a fresh cache; one output line (the whole sequence is one guarded call:
 // a hang in the cache keeps its mutex for ever)
 func c19CacheSeq(o *c19Out, max int, reqs []c19CacheReq) {
+	if c19Hung >= 3 {
+		return // a hung call spins for ever on a CPU: three witnesses are enough, the rest of the leg is skipped
+	}
 	op := map[string]any{"op": "httpcache.seq", "max": max, "reqs": reqs}
 	c19Mark(op)
 	res := c19Guard(func() string {
